@@ -151,7 +151,7 @@ NetPerformAction.ensures = _netpa_ensures_callsite(NetPerformAction.ensures)
 @contract
 class GenerativeStep(Contract):
     qualname = "nasim.envs.environment.NASimEnv.generative_step"
-    tags = {"C05": ("C05",), "C06": ("C06",), "C12": ("C12",), "C13": ("C13",), "C10": ("C10",),
+    tags = {"C05": ("C05", "C20"), "C06": ("C06",), "C12": ("C12",), "C13": ("C13",), "C10": ("C10",),
             "spec": ("C05", "C06", "C12", "C13"), "raises": ("C05", "C06", "C10", "C13"), "frame": ("C13", "C06")}
 
     def variants(self):
